@@ -38,7 +38,9 @@ for name in sorted(os.listdir(os.path.join(VERIF, 'seeded'))):
     rows.append('| `%s` | %s | %s | %s |' % (name, meta.get('property'), change, result.replace('|', '\\|')))
 table = ['| seeded change | breaks | the change | `./check <property>` (quick tier) on /repo + patch |', '|---|---|---|---|'] + rows
 summary = ('\nQuick tier: %d of %d seeded changes are reported as VIOLATION with a named obligation '
-           '(%d by Verus obligations on the real text only, %d by Kani harnesses only, %d by both)%s.\n' % (
+           '(%d by Verus obligations on the real text only, %d by Kani harnesses only, %d by both)%s. '
+           'Runs made with `--verus-first` stop after the Verus units when these already report the violation (the result file '
+           'says so), so "Verus only" there means that the Kani harnesses were not consulted, not that they would have passed.\n' % (
                n_caught, n_total, by_backend['verus'], by_backend['kani'], by_backend['both'],
                ('; not caught: ' + ', '.join('`%s`' % x for x in missed)) if missed else ''))
 text = '\n'.join(table) + '\n' + summary
